@@ -83,17 +83,17 @@ var setOpKinds = []string{"AddValue", "AddValue", "AddValue", "AddValues", "Remo
 
 func genSetCase(s core.Source) setCase {
 	var c setCase
-	c.Elem = core.Pick(s, []string{"int", "int", "string", "float", "ints", "any", "set"}, "elem")
+	c.Elem = core.Pick(s, []string{"int", "int", "string", "float", "ints", "any", "any-hard", "set"}, "elem")
 	c.Collator = core.Pick(s, []string{"default", "default", "reversed", "coarse"}, "collator")
-	if (c.Elem == "any" || c.Elem == "set") && c.Collator == "coarse" {
+	if (c.Elem == "any" || c.Elem == "any-hard" || c.Elem == "set") && c.Collator == "coarse" {
 		c.Collator = "reversed"
 	}
-	if c.Elem != "any" && s.Choose(6, "tight") == 0 {
+	if c.Elem != "any" && c.Elem != "any-hard" && s.Choose(6, "tight") == 0 {
 		c.Collator = "tight"
 	}
 	if c.Collator == "default" {
 		c.Ctor = core.Pick(s, []string{"Make", "MakeWithCollator", "MakeFromArray", "MakeFromSequence", "MakeFromSequence/reversed-set", "MakeFromSequence/coarse-set"}, "ctor")
-		if c.Elem == "any" || c.Elem == "set" {
+		if c.Elem == "any" || c.Elem == "any-hard" || c.Elem == "set" {
 			c.Ctor = core.Pick(s, []string{"Make", "MakeWithCollator", "MakeFromArray", "MakeFromSequence"}, "ctor2")
 		}
 	} else {
@@ -182,6 +182,7 @@ func intsOfCode(code int) []int {
 }
 
 var floatSetPool = []float64{math.Inf(-1), -2.5, math.Copysign(0, -1), 0, 5e-324, 1.5, 3, 1e300, math.Inf(1), -1e300, 2, 2.5}
+var anyHardPool = []any{uint8(50), uint(300), uint16(256), float32(0.1), 0.1, nil}
 var anyPool []any
 var anyPoolClass []int
 var setPool []col.SetLike[int]
@@ -194,7 +195,7 @@ func init() {
 	l0 := L.Make()
 	l2 := L.MakeFromArray([]any{int64(1), "x", nil})
 	anyPool = []any{nil, int64(0), int64(-3), int64(7), uint64(3), 1.5, -2.25, "", "a", "ab", true, false, 'x', l1, l1b, l0, l2,
-		int64(1 << 40), uint64(0), "b", complex(1, 2),
+		int64(1 << 40), uint64(0), "b", complex(1, 2), uint8(50), uint8(200), uint(300), uint16(256), float32(0.1), 0.1,
 		L.MakeFromArray([]any{nil}), L.MakeFromArray([]any{int64(0)}), L.MakeFromArray([]any{int64(1)}), L.MakeFromArray([]any{nil, int64(1)}), L.MakeFromArray([]any{int64(1), nil})}
 	for i := range anyPool {
 		anyPoolClass = append(anyPoolClass, i)
@@ -238,6 +239,10 @@ var (
 		}}
 	seInts = setElem[[]int]{"ints", 64, intsOfCode, func(c int) int { return c }, sameInts, lessInts, func(v []int) int { return len(v) }}
 	seAny  = setElem[any]{"any", len(anyPool), func(c int) any { return anyPool[c%len(anyPool)] }, func(c int) int { return anyPoolClass[c%len(anyPool)] },
+		func(a, b any) bool { return a == b }, nil, nil}
+	// six values of different Go types whose ranking is the collator's business but must be a preorder:
+	// a byte next to wider unsigned values above 255, a float32 next to the float64 it rounds from, nil
+	seAnyHard = setElem[any]{"any-hard", 6, func(c int) any { return anyHardPool[c%6] }, func(c int) int { return c % 6 },
 		func(a, b any) bool { return a == b }, nil, nil}
 	seSet = setElem[col.SetLike[int]]{"set", 16, func(c int) col.SetLike[int] { return setPool[c%16] }, func(c int) int { return c % 8 },
 		func(a, b col.SetLike[int]) bool { return a == b }, nil, nil}
@@ -285,6 +290,8 @@ func execSetCase(c setCase, _ core.Source) core.Result {
 		return execSet(c, seInts)
 	case "any":
 		return execSet(c, seAny)
+	case "any-hard":
+		return execSet(c, seAnyHard)
 	default:
 		return execSet(c, seSet)
 	}
